@@ -54,9 +54,54 @@ def run_one(mut, tier="quick"):
         shutil.rmtree(d, ignore_errors=True)
 
 
+def binding_demo() -> int:
+    """Corrupt one logged field / drop one event of a recorded, accepted trace: the monitor must reject each."""
+    import copy
+    from pbv import scen, shots, loopsuite
+    core.use_repo()
+    import random
+    rng = random.Random(5)
+    p = shots.gen_shot(rng, winds=0, look=0.0)
+    p["winds"] = [[20.0, 90.0, 300.0], [30.0, 200.0, 1e8]]
+    p["mv_fps"], p["alt_ft"] = 2600.0, 0.0
+    sc = {"shot": p, "cfg": {"max_calc_step_size_feet": 2.0, "cMaximumDrop": -8.0}, "range_ft": 3000.0, "unit": "Foot", "step_ft": 300.0,
+          "extra": True, "zero_yd": 100, "tid": 1}
+    o = scen.run_fire(sc, 1)
+    lines = o["lines"]
+    chk = core.Check("SELFTEST", "quick", 0)
+    base = core.validate_trace(chk, "Trace_Integrator", lines, "binding demo: accepted trace")
+    if base:
+        print("binding demo: the uncorrupted trace is rejected:", base)
+        return 1
+    iters = [i for i, l in enumerate(lines) if l["ev"] == "Iter"]
+    with_row = [i for i in iters if lines[i]["nrows"] == 1 and lines[i]["k"] >= 1]
+    flagged = [i for i in iters if set(lines[i]["fl"]) & {"U", "D"}]
+    raises = [i for i, l in enumerate(lines) if l["ev"] == "Raise"]
+    muts = []
+    c = copy.deepcopy(lines); c[iters[len(iters) // 2]]["windIs"] = []; muts.append(("wind vector of one iteration", c, "C12.WrongSegment"))
+    c = copy.deepcopy(lines); c[with_row[1]]["fl"] = []; muts.append(("flag of one range row", c, "C11.RowWithoutFlag"))
+    c = copy.deepcopy(lines); c[with_row[1]]["k"] += 1; muts.append(("multiple of one range row", c, "C03.SkippedMultiple"))
+    if flagged:
+        c = copy.deepcopy(lines); c[flagged[0]]["fl"] = [f for f in c[flagged[0]]["fl"] if f not in ("U", "D")] or ["R"]
+        muts.append(("event flag of the crossing row", c, "C15.Missing"))
+    if raises:
+        c = copy.deepcopy(lines); c[raises[0]]["reason"] = "Vel"; muts.append(("reason of the range error", c, "C04.Reason"))
+    c = copy.deepcopy(lines); del c[with_row[2]]; muts.append(("one Iter event deleted", c, "C03.MissingRow|Trace.|C03."))
+    bad = 0
+    for what, corrupted, expect in muts:
+        fails = core.validate_trace(chk, "Trace_Integrator", corrupted, "binding demo: " + what)
+        got = sorted({cl for _, cl in fails})
+        ok = any(any(g.startswith(e) for e in expect.split("|")) for g in got)
+        print(f"{'REJECTED' if ok else 'ACCEPTED'} corrupted trace ({what}): {got}")
+        bad += 0 if ok else 1
+    return bad
+
+
 def main(names=None) -> int:
     muts = json.loads(MUTANTS.read_text())["mutants"]
     names = names or sys.argv[2:]
+    if names == ["binding"]:
+        return 1 if binding_demo() else 0
     if names:
         muts = [m for m in muts if m["name"] in names or any(p in names for p in m["props"])]
     bad = 0
@@ -73,4 +118,6 @@ def main(names=None) -> int:
     out = core.VERIF / "selftest" / "last_result.json"
     out.write_text(json.dumps({"results": rows}, indent=1))
     print(f"selftest: {len(rows) - bad}/{len(rows)} mutants detected")
+    if not names:
+        bad += binding_demo()
     return 0 if bad == 0 else 1
